@@ -442,6 +442,17 @@ impl PullSocket {
 //@ end
 }
 
+// ---- C16 corollary: once forgotten, never chosen ----
+/// "once the socket has observed the end no later send is routed to that peer": the round robin writes to
+/// `q[first_live(q, t)]`, which is in the table `t` (lemma_first_live_bounds); a forgotten peer is not in the table any
+/// more, so whatever the rotation queue still contains, the peer a later send chooses is a different one.
+pub proof fn lemma_forgotten_not_chosen(q: Seq<PeerIdentity>, t0: Map<PeerIdentity, Peer>, p: PeerIdentity)
+    ensures
+        first_live(q, t0.remove(p)) < q.len() ==> q[first_live(q, t0.remove(p))] != p,
+{
+    lemma_first_live_bounds(q, t0.remove(p));
+}
+
 // ---- C10 corollary: strict rotation ----
 /// the rotation after one successful send when the first identity is live: it moves to the back
 pub open spec fn rotate(q: Seq<PeerIdentity>) -> Seq<PeerIdentity> { q.subrange(1, q.len() as int).push(q[0]) }
